@@ -7,10 +7,10 @@
  "annotate": ["netbuf/netbuf_write.c"],
  "defines": ["VERIF_HALLOC", "NW_ZERO_CASE"],
  "models": ["models/net_events.c", "models/net_netapi.c", "models/net_os.c"],
- "cbmc": ["--malloc-may-fail", "--malloc-fail-null"],
- "unwind": 24,
+ "cbmc": ["--malloc-may-fail", "--malloc-fail-null", "--unwindset", "poke.0:1,poke_wrapped_for_contract_checking.0:1,netbuf_write_consume_wrapped_for_contract_checking.0:4,netbuf_write_consume.0:4"], "bounded": true, "bound": "queue of <= 3 buffers (zero-length case only)",
+ "loop_contracts": false,
  "timeout": 300,
- "assumptions": ["the zero-length case of nw_consume: consume(0) into an empty buffer", "this group reports the zero-length-write defect on the unmodified tree: poke hands an empty buffer to network_write, whose precondition (in-code assert) is buflen != 0", "--unwind 24 only bounds the constant-size loops of the DFCC library and the else-branch loop of STAILQ_REMOVE, which is unreachable here (the removed buffer is always the head): the unwinding assertions are discharged, so nothing is cut off (not a bounded stand-in)"]
+ "assumptions": ["the zero-length case of nw_consume: consume(0) into an empty buffer; queue <= 3 buffers", "this group reports the zero-length-write defect on the unmodified tree: poke hands an empty buffer to network_write, whose precondition (in-code assert) is buflen != 0", "--unwindset poke.0:1 only bounds the else-branch loop of STAILQ_REMOVE in poke, which is unreachable (the removed buffer is always the head): the unwinding assertions are discharged, so nothing is cut off (not a bounded stand-in)"]
 }
 */
 #include <stdlib.h>
@@ -18,30 +18,24 @@
 #include "netbuf/netbuf_write.c"
 #include "c07w.h"
 
-/* Consuming a reservation of any well-formed writer. */
+/* consume(0) into an empty last buffer (what reserve(0) on a writer without a queued buffer with room leads to). */
 void
 h_nw_consume_zero(void)
 {
 	NW_MK(W, 0);
-	IN(size_t, len);
 	int rc;
 	unsigned n0 = g_nwr.nstart;
-	size_t d0;
 
 	__CPROVER_assume(qn >= 1);
 	W->reserved = 1;
-	__CPROVER_assume(L->buflen - L->datalen >= len);
-	__CPROVER_assume(len == 0 && L->datalen == 0);
-	d0 = L->datalen;
+	__CPROVER_assume(L->datalen == 0);
 
-	rc = netbuf_write_consume(W, len);
+	rc = netbuf_write_consume(W, 0);
 
 	__CPROVER_assert(W->reserved == 0, "reservation consumed");
-	__CPROVER_assert(L->datalen == d0 + (wfailed ? 0 : len), "len bytes appended to the last queued buffer (none after a failure)");
-	__CPROVER_assert(g_nwr.nstart == n0 || (g_nwr.nstart == n0 + 1 && !inflight && !wfailed && W->curr == A &&
-	    g_nwr.buf == A->buf && g_nwr.buflen == A->datalen && g_nwr.minlen == A->datalen),
-	    "at most one write is started, of the whole head buffer, only when none is in flight");
-
+	__CPROVER_assert(g_nwr.nstart == n0 || (g_nwr.nstart == n0 + 1 && !inflight && g_nwr.buflen >= 1),
+	    "at most one write is started, never an empty one");
 	VCOVER(rc == 0 && qn == 1 && !inflight && !wfailed);
-	VCOVER(rc == 0 && qn == 1 && inflight);
+	VCOVER(rc == 0 && qn == 3 && inflight);
+	VCOVER(rc == 0 && qn == 2 && !inflight && !wfailed && g_nwr.nstart == n0 + 1);
 }
